@@ -667,3 +667,68 @@ Proof.
   - apply watch_passing_iff; rewrite Hnode, Hsid; [exact Htag|]. split; [exact Hs|]. split; [exact Hsvc | exact Hh].
   - split; [exact Hn | split; [exact Hnode | exact Hsid]].
 Qed.
+
+(* ---------- failed catalog lookups (c8f84e8) ---------- *)
+Lemma all_configs_o_nil prefix catalog m : all_configs_o [] prefix catalog m = all_configs prefix catalog m.
+Proof.
+  induction m as [|[name keys] m IH]; cbn [all_configs_o all_configs]; [reflexivity|]. rewrite IH.
+  unfold service_config_o, service_config, catalog_lookup. cbn [existsb bind]. reflexivity.
+Qed.
+(* when every lookup succeeds the round is the one of the error-free model *)
+Theorem svc_config_o_nil prefix status strict checks catalog :
+  svc_config_o [] prefix status strict checks catalog = svc_config prefix status strict checks catalog.
+Proof. unfold svc_config_o, make_config_o, svc_config, make_config, config_lines. now rewrite all_configs_o_nil. Qed.
+
+Lemma all_configs_o_failing failing prefix catalog m name keys :
+  In (name, keys) m -> name <> [] -> keys <> [] -> In name failing ->
+  is_ok (all_configs_o failing prefix catalog m) = false.
+Proof.
+  induction m as [|[n0 ks0] m IH]; [intros []|]. intros [H|H] Hn Hk Hf; cbn [all_configs_o].
+  - inversion H; subst. unfold service_config_o.
+    destruct (beq name []) eqn:En; [apply beq_eq in En; contradiction|]. cbn [orb].
+    destruct keys as [|k0 keys]; [contradiction|].
+    unfold catalog_lookup.
+    assert (existsb (beq name) failing = true) as -> by (apply existsb_exists; exists name; split; [exact Hf | apply beq_refl]).
+    reflexivity.
+  - destruct (service_config_o failing prefix catalog n0 ks0); cbn [bind is_ok]; try reflexivity.
+    specialize (IH H Hn Hk Hf). destruct (all_configs_o failing prefix catalog m); cbn [bind is_ok] in *; congruence.
+Qed.
+
+(* a round in which the catalog lookup of a service with a passing instance fails yields no
+   config at all (so nothing is pushed and the routes of that service stay in the table) *)
+Theorem failed_lookup_no_config failing prefix status strict checks catalog svc :
+  In svc (watch_passing prefix status strict checks) -> c_sname svc <> [] -> In (c_sname svc) failing ->
+  is_ok (svc_config_o failing prefix status strict checks catalog) = false.
+Proof.
+  intros Hs Hn Hf. unfold svc_config_o, make_config_o.
+  destruct (group_complete _ [] svc Hs) as [ks [Hin Hk]].
+  assert (ks <> []) as Hne by (intros E; rewrite E in Hk; destruct Hk).
+  pose proof (all_configs_o_failing failing prefix catalog _ _ _ Hin Hn Hne Hf) as H.
+  unfold group. destruct (all_configs_o failing prefix catalog _); cbn [bind is_ok] in *; congruence.
+Qed.
+
+(* before c8f84e8 the failed lookup was treated as "no instances": the pushed config lacked the
+   command of a healthy, registered, tagged instance; the repaired round pushes nothing *)
+Theorem failed_lookup_unroutes_refuted :
+  exists failing prefix status checks catalog e line,
+    In e catalog /\ In line (e_cmds e) /\ In (e_sname e) failing /\
+    healthy checks status false (e_node e) (e_sid e) /\ registered checks (e_node e) (e_sid e) /\
+    (exists text, svc_config prefix status false checks catalog = Ok text /\ In line (split_byte text 10)) /\
+    (exists text, svc_config_lookup_unrepaired failing prefix status false checks catalog = Ok text
+                  /\ ~ In line (split_byte text 10)) /\
+    svc_config_o failing prefix status false checks catalog = Err err_catalog.
+Proof.
+  set (t1 := [bs "urlprefix-/one"]). set (t2 := [bs "urlprefix-/two"]).
+  set (e1 := mkEntry (bs "n1") (bs "s1") (bs "svc-a") t1 [bs "route add svc-a /one http://10.0.0.1:8001/"]).
+  set (e2 := mkEntry (bs "n2") (bs "s2") (bs "svc-b") t2 [bs "route add svc-b /two http://10.0.0.2:8002/"]).
+  exists [bs "svc-b"], (bs "urlprefix-"), [bs "passing"],
+    [mkCheck (bs "n1") (bs "service:s1") (bs "s1") (bs "svc-a") (bs "passing") t1;
+     mkCheck (bs "n2") (bs "service:s2") (bs "s2") (bs "svc-b") (bs "passing") t2],
+    [e1; e2], e2, (bs "route add svc-b /two http://10.0.0.2:8002/").
+  split; [right; now left|]. split; [now left|]. split; [now left|].
+  split; [apply healthy_b_spec; vm_compute; reflexivity|].
+  split; [eexists; split; [right; left; reflexivity|]; split; [split; reflexivity | vm_compute; reflexivity]|].
+  split; [eexists; split; [vm_compute; reflexivity|]; vm_compute; tauto|].
+  split; [|vm_compute; reflexivity].
+  eexists. split; [vm_compute; reflexivity|]. vm_compute. intros [H|[]]; discriminate.
+Qed.
